@@ -15,7 +15,7 @@ func init() {
 		Scenarios: []*Scenario{
 			{Name: "serve", Weight: 6, Bubble: true, Run: func(e *Env) {
 				t := e.T
-				cfg := srvCfg{prop: "C08", nConns: t.Range(2, 4), nDialled: t.Draw(2), msgsPer: [2]int{1, 6}, parkPct: 60, answerPct: 30, bigMsgs: true}
+				cfg := srvCfg{prop: "C08", nConns: t.Range(2, 4), nDialled: t.Draw(2), msgsPer: [2]int{1, 6}, parkPct: 60, answerPct: 30, bigMsgs: true, doubleConn: true, deferPct: 20}
 				newSrvWorld(e, cfg).run()
 			}},
 			{Name: "serve-yield", Weight: 3, Bubble: true, Run: func(e *Env) {
@@ -24,7 +24,7 @@ func init() {
 				newSrvWorld(e, cfg).run()
 			}},
 		},
-		MustProbes: []string{"yield-parked", "closenotify-from-task"},
+		MustProbes: []string{"yield-parked", "closenotify-from-task", "back-to-back-accept", "deferred-answer"},
 	})
 	register(&Property{
 		ID: "C09", Level: "exploration",
@@ -61,6 +61,6 @@ func init() {
 
 func c16Tcp(e *Env) {
 	t := e.T
-	cfg := srvCfg{prop: "C16", nConns: t.Range(1, 2), nDialled: t.Draw(2), msgsPer: [2]int{1, 6}, parkPct: 15, answerPct: 100, wideHdr: true}
+	cfg := srvCfg{prop: "C16", nConns: t.Range(1, 2), nDialled: t.Draw(2), msgsPer: [2]int{1, 6}, parkPct: 15, answerPct: 100, wideHdr: true, deferPct: 35}
 	newSrvWorld(e, cfg).run()
 }
